@@ -7,6 +7,7 @@
 #include "sut.hpp"
 
 using sim::SimMutex;
+using sim::SimTryMutex;
 
 // real spinlocks, with a per-task hold count so that the simulator knows who holds what
 extern "C" uint32_t simh_lock_age(); // harness: 0, or a counter value just below 2^32 ("aged" ticket lock)
@@ -41,6 +42,7 @@ template <class Mx> struct DefTag { using type = bool frg::qs_agent<Mx>::*; frie
 template struct Rob<DefTag<SimMutex>, &frg::qs_agent<SimMutex>::_qs_deferred>;
 template struct Rob<DefTag<TicketM>, &frg::qs_agent<TicketM>::_qs_deferred>;
 template struct Rob<DefTag<SimpleM>, &frg::qs_agent<SimpleM>::_qs_deferred>;
+template struct Rob<DefTag<SimTryMutex>, &frg::qs_agent<SimTryMutex>::_qs_deferred>;
 
 #endif
 
@@ -51,15 +53,18 @@ template <class Mx> struct DesTag { using type = std::atomic<uint64_t> frg::qs_d
 template struct Rob<CtrTag<SimMutex>, &frg::qs_domain<SimMutex>::_qs_counter>;
 template struct Rob<CtrTag<TicketM>, &frg::qs_domain<TicketM>::_qs_counter>;
 template struct Rob<CtrTag<SimpleM>, &frg::qs_domain<SimpleM>::_qs_counter>;
+template struct Rob<CtrTag<SimTryMutex>, &frg::qs_domain<SimTryMutex>::_qs_counter>;
 template struct Rob<DesTag<SimMutex>, &frg::qs_domain<SimMutex>::_desired_qs_counter>;
 template struct Rob<DesTag<TicketM>, &frg::qs_domain<TicketM>::_desired_qs_counter>;
 template struct Rob<DesTag<SimpleM>, &frg::qs_domain<SimpleM>::_desired_qs_counter>;
+template struct Rob<DesTag<SimTryMutex>, &frg::qs_domain<SimTryMutex>::_desired_qs_counter>;
 #endif
 
 #define DISPATCH(mt, EXPR) \
 	switch (mt) { \
 	case MT_SIM: { using M = SimMutex; EXPR; break; } \
 	case MT_TICKET: { using M = TicketM; EXPR; break; } \
+	case MT_SIMTRY: { using M = SimTryMutex; EXPR; break; } \
 	default: { using M = SimpleM; EXPR; break; } }
 
 extern "C" {
